@@ -96,7 +96,7 @@ pub fn run(ctx: &Ctx) -> Report {
     Report {
         acc,
         exhaustive: true,
-        rule: "every 16-bit type-field value; every (class, method) pair 4x4096 (also as the header of messages carrying one attribute of each of 8 kinds, or an application attribute whose value length changes between add_attribute and build, built directly and after into_owned); transaction ids: walking one/zero over 128 bits, every byte lane x 256 values x 3 backgrounds, 16-bit windows at every bit offset, boundary patterns; each case is distinct by construction".into(),
+        rule: "every 16-bit type-field value (decoded alone and followed by 1 / 18 / 26 / 1200 bytes of six kinds); every (class, method) pair 4x4096 (also as the header of messages carrying one attribute of each of 8 kinds, or an application attribute whose value length changes between add_attribute and build, built directly and after into_owned); transaction ids: walking one/zero over 128 bits, every byte lane x 256 values x 3 backgrounds, 16-bit windows at every bit offset, boundary patterns; each case is distinct by construction".into(),
         bounds: json!({"type_field_values": 65536, "class_method_pairs": 16384, "tids": "~13 000 (see rule)", "generate_observations": "2^24 + 2^16 (thorough 2^32 + 2^16) consecutive calls on one thread"}),
         assumptions: vec!["TransactionId::generate(): only the masking constructor it goes through is enumerated; RNG output is observed, not explored".into()],
         ..Default::default()
@@ -139,6 +139,19 @@ pub fn judge(case: &Case, acc: &mut Acc) {
                     } else if pe != real::PErr::NotStun {
                         viol!(acc, P, "wrong-refusal", case, "refusal of a non-STUN type field is not NotStun", "NotStun", format!("{pe:?}"));
                     }
+                }
+            }
+            // the decoder is a function of the 16-bit field alone: handed a longer slice (a whole datagram of
+            // some protocol, a STUN header, an RFC 3489 message without the cookie) it answers the same
+            let short = MessageType::from_bytes(&case.data).map(|m| m.to_bytes()).map_err(real::PErr::from);
+            for tail in [&[0u8; 1][..], &[0u8; 18][..], &[0xFFu8; 18][..], &[0, 0, 0x21, 0x12, 0xA4, 0x42, 1, 2, 3, 4, 5, 6, 7, 8, 9, 10, 11, 12][..], &[0, 8, 0x21, 0x12, 0xA4, 0x43, 1, 2, 3, 4, 5, 6, 7, 8, 9, 10, 11, 12, 0x80, 0x22, 0, 1, 0x41, 0, 0, 0][..], &[0x47u8; 1200][..]] {
+                let mut long = case.data.clone();
+                long.extend_from_slice(tail);
+                let got = MessageType::from_bytes(&long).map(|m| m.to_bytes()).map_err(real::PErr::from);
+                let got2 = MessageType::try_from(&long[..]).map(|m| m.to_bytes()).map_err(real::PErr::from);
+                if got != short || got2 != short {
+                    viol!(acc, P, "type-depends-on-following-bytes", case, format!("MessageType::from_bytes / try_from of the same type field followed by {} more bytes answers differently", tail.len()), format!("{short:?}"), format!("{got:?} / {got2:?}"));
+                    break;
                 }
             }
             let via_tryfrom = MessageType::try_from(&case.data[..]).is_ok();
